@@ -87,6 +87,95 @@ def updateNTy : Nat → Ty → Ty → Option Ty
   | n + 2, e, .pair a b => (updateNTy n e b).map (.pair a)
   | _, _, _ => none
 
+/-- lexicographic order on strings / byte sequences -/
+def lexLt : List Nat → List Nat → Bool
+  | [], [] => false
+  | [], _ :: _ => true
+  | _ :: _, [] => false
+  | a :: as, b :: bs => a < b || (a == b && lexLt as bs)
+
+/-- `v` is a value of the simple comparable type `k` -/
+def isKey : Ty → Val → Bool
+  | .int, .num .int _ | .nat, .num .nat _ | .mutez, .num .mutez _ | .timestamp, .num .timestamp _ => true
+  | .string, .str _ | .bytes, .bytes _ | .bool, .bool _ | .unit, .unit => true
+  | _, _ => false
+
+/-- the total order of the simple comparable types: numbers by value, strings and bytes lexicographically,
+`False < True` (the full order, on pairs / options / unions / addresses …, is property C03) -/
+def keyLt : Val → Val → Bool
+  | .num _ a, .num _ b => decide (a < b)
+  | .str a, .str b => lexLt a b
+  | .bytes a, .bytes b => lexLt a b
+  | .bool a, .bool b => !a && b
+  | _, _ => false
+
+/-- strictly ascending (every element below all later ones) -/
+def strictSorted : List Val → Bool
+  | [] => true
+  | a :: rest => rest.all (keyLt a) && strictSorted rest
+
+/-- key of a map binding (`Pair key value`) -/
+def keyOf : Val → Val
+  | .pair k _ => k
+  | v => v
+
+def isBinding (k : Ty) : Val → Bool
+  | .pair a _ => isKey k a
+  | _ => false
+
+/-- a set of simple comparable elements, strictly ascending -/
+def goodSet (t : Ty) (xs : List Val) : Bool := simpleComparable t && xs.all (isKey t) && strictSorted xs
+
+/-- a map with simple comparable keys: bindings in strictly ascending key order -/
+def goodMap (k : Ty) (items : List Val) : Bool :=
+  simpleComparable k && items.all (isBinding k) && strictSorted (items.map keyOf)
+
+mutual
+  /-- every set / map literal inside `v` respects the strict ordering of its keys (maps with composite key types, on which
+  the modelled order is not defined, are taken as given) -/
+  def litOk : Val → Bool
+    | .pair a b => litOk a && litOk b
+    | .some v => litOk v
+    | .left v _ => litOk v
+    | .right _ v => litOk v
+    | .list _ xs => litOks xs
+    | .set t xs => goodSet t xs && litOks xs
+    | .map k _ xs => (!simpleComparable k || goodMap k xs) && litOks xs
+    | .lam _ _ body => literalsOk body
+    | _ => true
+  def litOks : List Val → Bool
+    | [] => true
+    | x :: xs => litOk x && litOks xs
+  /-- **literals of a program**: every `PUSH`ed value (also inside lambdas and sub-programs) is a well-formed literal.
+  Together with `typeInstr` this is what "well-typed program" means for programs that contain set / map literals;
+  it is a check of the program text only (values built at run time by `APPLY` are not literals). -/
+  def literalsOk : Instr → Bool
+    | .seq is => literalsOks is
+    | .PUSH _ v => litOk v
+    | .LAMBDA _ _ b | .DIP b | .DIPN _ b | .LOOP b | .LOOP_LEFT b | .ITER b | .MAP b => literalsOk b
+    | .IF a b | .IF_NONE a b | .IF_LEFT a b | .IF_CONS a b => literalsOk a && literalsOk b
+    | _ => true
+  def literalsOks : List Instr → Bool
+    | [] => true
+    | i :: is => literalsOk i && literalsOks is
+end
+
+/-- MEM: key, then a set or a map with that (simple comparable) key type -/
+def memTy : Ty → Ty → Option Ty
+  | k, .set t => if k = t ∧ simpleComparable t then some .bool else none
+  | k, .map k' _ => if k = k' ∧ simpleComparable k' then some .bool else none
+  | _, _ => none
+
+def getTy : Ty → Ty → Option Ty
+  | k, .map k' v => if k = k' ∧ simpleComparable k' then some (.option v) else none
+  | _, _ => none
+
+/-- UPDATE: `key : bool : set key` or `key : option value : map key value` -/
+def updateTy : Ty → Ty → Ty → Option Ty
+  | k, .bool, .set t => if k = t ∧ simpleComparable t then some (.set t) else none
+  | k, .option v', .map k' v => if k = k' ∧ v' = v ∧ simpleComparable k' then some (.map k' v) else none
+  | _, _, _ => none
+
 /-- join of two branch results -/
 def join : TRes → TRes → Option TRes
   | .failed, r => some r
@@ -119,6 +208,12 @@ def step : Instr → List Ty → Option TRes
   | .NIL t, s => some (.ok (.list t :: s))
   | .CONS, a :: .list t :: s => if a = t then some (.ok (.list t :: s)) else none
   | .EMPTY_MAP k v, s => some (.ok (.map k v :: s))
+  | .EMPTY_SET t, s => if simpleComparable t then some (.ok (.set t :: s)) else none
+  | .SIZE, .set _ :: s => some (.ok (.nat :: s))
+  | .MEM, a :: b :: s => (memTy a b).map fun t => .ok (t :: s)
+  | .GET, a :: b :: s => (getTy a b).map fun t => .ok (t :: s)
+  | .UPDATE, a :: b :: c :: s => (updateTy a b c).map fun t => .ok (t :: s)
+  | .GET_AND_UPDATE, a :: b :: c :: s => (updateTy a b c).bind fun t => (getTy a t).map fun o => .ok (o :: t :: s)
   | .SIZE, .string :: s | .SIZE, .bytes :: s | .SIZE, .list _ :: s | .SIZE, .map _ _ :: s => some (.ok (.nat :: s))
   | .ADD, a :: b :: s => (addTy a b).map fun t => .ok (t :: s)
   | .SUB, a :: b :: s => (subTy a b).map fun t => .ok (t :: s)
@@ -201,6 +296,11 @@ mutual
       | some (.ok s') => if s' = s then some (.ok s) else none
       | some .failed => some (.ok s)
       | none => none
+    | .ITER body, .set t :: s =>
+      match typeInstr strictMap body (t :: s) with
+      | some (.ok s') => if s' = s then some (.ok s) else none
+      | some .failed => some (.ok s)
+      | none => none
     | .ITER body, .map k v :: s =>
       match typeInstr strictMap body (.pair k v :: s) with
       | some (.ok s') => if s' = s then some (.ok s) else none
@@ -242,6 +342,7 @@ mutual
     | .right tl v, .or l r => tl = l && checkVal strictMap v r
     | .list t' xs, .list t => t' = t && checkVals strictMap xs t
     | .map k' v' xs, .map k v => k' = k && v' = v && checkVals strictMap xs (.pair k v)
+    | .set t' xs, .set t => t' = t && checkVals strictMap xs t
     | .lam a' b' body, .lambda a b =>
       a' = a && b' = b &&
         (match typeInstr strictMap body [a] with
